@@ -44,4 +44,6 @@ extern struct op_entry ops_find[];
 void find_reset(void);
 extern struct op_entry ops_local[];
 void local_reset(void);
+extern struct op_entry ops_dump[];
+void dump_reset(void);
 #endif
